@@ -136,6 +136,17 @@ impl TilemapData {
         Ok(())
     }
 
+    /// Every tile must reference a tile that exists in the tileset.
+    pub(crate) fn validate_tile_ids(&self, tile_count: u32) -> Result<()> {
+        if let Some(tile) = self.tiles.iter().find(|t| t.id.0 >= tile_count) {
+            return Err(AsepriteParseError::InvalidInput(format!(
+                "Tilemap references tile {} but the tileset has only {} tiles",
+                tile.id.0, tile_count
+            )));
+        }
+        Ok(())
+    }
+
     pub(crate) fn parse_chunk<R: Read>(mut reader: AseReader<R>) -> Result<Self> {
         let width = reader.word()?;
         let height = reader.word()?;
